@@ -39,7 +39,7 @@ pub fn run(ctx: &Ctx) {
     ctx.set_rule("tape-decoded random programs over the documented feature set (balanced profile, ~2% sloppy choices), printed in a random layout; oracle: reference interpreter on stdout + success/failure class. Non-trivial = the run touches >= 4 of the feature classes listed under labels 'feature:*' including at least one loop or call; distinct = distinct source texts");
     ctx.replay_corpus(None);
     let cfg = gen::GenCfg::balanced();
-    let n = ctx.n(30_000, 1_500_000);
+    let n = ctx.n(60_000, 1_500_000);
     let via = if ctx.tier == Tier::Quick { Via::Cli } else { Via::Fast };
     ctx.proptest_tapes("programs", n, 700, via, None, |t| {
         let density = if t.chance(1, 2) { 12 } else { 0 };
